@@ -246,24 +246,66 @@ def env_invariant(I, env, heap=None):
     if sp.cls == "DiscretePortfolio":
         n = h[spf["contracts"].oid]["len"]
         out.append(Cl("table_width", spf["_allocations"].ncols == n))
-    return out
+    return out + clock_invariant(I, env, h)
 
 
-# ----------------------------------------------------------------------------- callee contracts of step that are not
-# yet verified against their bodies (listed as ASSUMED; C04 verifies the dispatch code)
+# ----------------------------------------------------------------------------- delivering a batch of market events
+from pyvc.loops import LoopContract
+
+
+def batch_sorted(I, seq_obj, heap, now0, tag=""):
+    """what Transmitter._create_partitions/_next establish for a batch (C04 lemma): stamps non-decreasing, none before the clock"""
+    p = heap[seq_obj.oid]
+    at, n = p["at"], p["len"]
+    I.add_idx(z3.IntVal(0))
+    return [PWI(tag + "batch_in_stamp_order", lambda i: z3.Implies(z3.And(0 <= i, i + 1 < n), ev_time(at(i).t) <= ev_time(at(i + 1).t))),
+            Cl(tag + "batch_not_before_the_clock", z3.Implies(n > 0, ev_time(at(z3.IntVal(0)).t) >= now0))]
+
+
+def batch_end(heap, seq_obj, now0):
+    p = heap[seq_obj.oid]
+    return z3.If(p["len"] > 0, ev_time(p["at"](p["len"] - 1).t), now0)
+
+
+def clock_invariant(I, env, heap):
+    """C04: the clock is the stamp of the last notified event; the buffered batches are in stamp order, the latent batch not before
+    the clock and the non-latent batch not before the end of the latent one"""
+    f = heap[env.oid]
+    now = lift_fl(f["_now"]).v
+    le = f["_last_event"]
+    lat, non = f["_events_latent"], f["_events_nonlatent"]
+    I.add_idx(heap[lat.oid]["len"] - 1)
+    return ([Cl("clock_is_last_event_time", TRUE if le is None else event_time(heap, le) == now)]
+            + batch_sorted(I, lat, heap, now, "latent_") + batch_sorted(I, non, heap, batch_end(heap, lat, now), "nonlatent_"))
+
+
 class _ProcessEvents(Contract):
-    """ASSUMED: delivering a batch of market events changes quotes only within the property's quantifier (sane quotes,
-    cash at 1/1, the rate quoted), leaves the account's positions alone and raises nothing."""
+    """C04: the batch is notified in list order, each event exactly once, the clock ends at the last event's stamp; the buffers are
+    swapped as stated. What the delivered events do to the quotes is an assumption about the *inputs* (the property's quantifier:
+    0 < bid <= ask, cash at 1/1, the rate quoted)."""
     relpath = REL_ENV
-    assumed = True
     props = ("C04", "C08")
+    field = None
     sets_done = False
+
+    def pre_state(self, I):
+        env = mk_env(I, "box")
+        I.fset(env, "_g_delivered", In(I.int("delivered0")))
+        return {"self": env}
+
+    def requires(self, c):
+        I = c.I
+        h = I.snapshot()
+        f = h[c.self.oid]
+        le = f["_last_event"]
+        return batch_sorted(I, f[self.field], h, f["_now"].v) + [Cl("clock_is_last_event_time", TRUE if le is None else event_time(h, le) == f["_now"].v)]
 
     def modifies(self, c):
         f = c.I.heap[c.self.oid]
         books = c.I.heap[f["exchange"].oid]["_books"]
         out = [("col", books, "bid_price"), ("col", books, "ask_price"), ("field", c.self, "_now"), ("field", c.self, "_last_event"),
-               ("field", c.self, "_events_latent"), ("field", c.self, "_events_nonlatent")]
+               ("field", c.self, "_events_latent"), ("field", c.self, "_events_nonlatent"), ("field", c.self, "_g_delivered"),
+               ("global", "AbstractContract.now")]
         if self.sets_done:
             out.append(("field", c.self, "_done"))
         return out
@@ -275,37 +317,129 @@ class _ProcessEvents(Contract):
         from pyvc.contract import havoc_loc
         havoc_loc(I, ("col", books, "bid_price"))
         havoc_loc(I, ("col", books, "ask_price"))
-        I.fset(c.self, "_now", I.tm("now"))
-        I.fset(c.self, "_events_latent", mk_event_seq(I, "latent"))
-        if self.sets_done:
-            I.fset(c.self, "_events_nonlatent", mk_event_seq(I, "nonlatent"))
-            old_done = c.old[c.self.oid]["_done"]
-            nd = I.bool("done_by_stream")
-            I.fset(c.self, "_done", z3.Or(tobool(old_done), nd))     # only ever set, never cleared
+        old = c.old[c.self.oid]
+        p = c.old[old[self.field].oid]
+        n, at = p["len"], p["at"]
+        I.add_idx(n - 1)
+        I.fset(c.self, "_now", Tm(z3.If(n > 0, ev_time(at(n - 1).t), old["_now"].v)))
+        I.fset(c.self, "_last_event", I.new_rec("IEvent", time=I.heap[c.self.oid]["_now"]))
+        if "_g_delivered" in old:
+            I.fset(c.self, "_g_delivered", In(old["_g_delivered"].v + n))
+        I.trace.append(("global_write", "AbstractContract.now"))
+        if not self.sets_done:
+            I.fset(c.self, "_events_latent", mk_event_seq(I, "latent_empty"))
+            I.assume(I.heap[I.heap[c.self.oid]["_events_latent"].oid]["len"] == 0)
+        else:
+            ex = I.bool("stream_exhausted")
+            lat, non = mk_event_seq(I, "latent"), mk_event_seq(I, "nonlatent")
+            I.fset(c.self, "_done", z3.Or(tobool(old["_done"]), ex))
+            I.fset(c.self, "_events_latent", lat)
+            I.fset(c.self, "_events_nonlatent", non)
 
-    def ensures(self, c):
+    def delivery(self, c):
+        I = c.I
+        old, new = c.old[c.self.oid], c.heap()[c.self.oid]
+        p = c.old[old[self.field].oid]
+        n, at = p["len"], p["at"]
+        I.add_idx(n - 1)
+        out = [Cl("clock_at_last_delivered_event", lift_fl(new["_now"]).v == z3.If(n > 0, ev_time(at(n - 1).t), old["_now"].v))]
+        if "_g_delivered" in old:
+            out.append(Cl("every_event_notified_exactly_once", new["_g_delivered"].v == old["_g_delivered"].v + n))
+        return out
+
+    def inputs(self, c):
+        """input assumptions: market events keep quotes within the property's quantifier and keep the rate quoted"""
         I = c.I
         h = I.snapshot()
         f = h[c.self.oid]
         b = f["broker"]
         v = SymBrokerView(I, b, h)
-        fo = c.old[c.self.oid]
         tr = h[h[b.oid]["track_record"].oid]
-        return [Cl("cash_ok", cash_ok(v)), PW("sane_quotes", lambda k: sane_quote(v, k)),
-                Cl("clock_advances", z3.And(f["_now"].v >= fo["_now"].v, z3.Not(tr["_has_time"](f["_now"].v)))),
-                ] + [cl for cl in REGISTRY["Broker.accrued_interest"].requires(Ctx(I, {"self": b, "now": f["_now"], "accrue": True}))
-                     if cl.name in ("rate_quoted", "markup", "pow_axioms")]
+        cl = [Cl("cash_ok", cash_ok(v)), PW("sane_quotes", lambda k: sane_quote(v, k)),
+              Cl("fresh_timestamp", z3.Not(tr["_has_time"](f["_now"].v)))]
+        cl += [x for x in REGISTRY["Broker.accrued_interest"].requires(Ctx(I, {"self": b, "now": f["_now"], "accrue": True}))
+               if x.name in ("rate_quoted", "markup", "pow_axioms")]
+        for x in cl:
+            x.input_assumption = True        # AXIOM(inputs)
+        return cl
 
 
 @register
 class ProcessLatent(_ProcessEvents):
     qual = "TradingEnv._process_latent_events"
+    field = "_events_latent"
+
+    def ensures(self, c):
+        new = c.heap()[c.self.oid]
+        buf = c.heap()[new["_events_latent"].oid] if isinstance(new["_events_latent"], Obj) else None
+        return self.delivery(c) + [Cl("latent_buffer_emptied", FALSE if buf is None else buf["len"] == 0),
+                                   Cl("clock_advances", lift_fl(new["_now"]).v >= c.old[c.self.oid]["_now"].v),
+                                   Cl("clock_is_last_event_time", TRUE if new["_last_event"] is None else
+                                      event_time(c.heap(), new["_last_event"]) == lift_fl(new["_now"]).v)] + self.inputs(c)
 
 
 @register
 class ProcessNonLatent(_ProcessEvents):
     qual = "TradingEnv._process_nonlatent_events"
+    field = "_events_nonlatent"
     sets_done = True
+
+    def ensures(self, c):
+        old, new = c.old[c.self.oid], c.heap()[c.self.oid]
+        nxt = clock_invariant(c.I, c.self, c.heap())
+        for x in nxt:
+            if x.name != "clock_is_last_event_time":
+                x.input_assumption = True     # ASSUMED of Transmitter._next (C04 partition-slot lemma + bounded shell): next batches ordered, after the clock
+        return self.delivery(c) + [Cl("done_is_only_ever_set", z3.Implies(tobool(old["_done"]), tobool(new["_done"]))),
+                                   Cl("clock_advances", lift_fl(new["_now"]).v >= old["_now"].v)] + nxt + self.inputs(c)
+
+
+class _DeliverLoop(LoopContract):
+    ordinal = 0
+    field = None
+
+    def havoc(self, L):
+        env = L.env["self"]
+        return [("field", env, "_now"), ("field", env, "_g_delivered")]
+
+    def inv(self, L):
+        env = L.env["self"]
+        old, cur = L.entry[env.oid], L.cur[env.oid]
+        p = L.entry[old[self.field].oid]
+        at = p["at"]
+        i = L.i
+        L.I.add_idx(i - 1)
+        out = [Cl("clock_follows_the_batch", lift_fl(cur["_now"]).v == z3.If(i > 0, ev_time(at(i - 1).t), old["_now"].v)),
+               Cl("clock_never_goes_back", lift_fl(cur["_now"]).v >= old["_now"].v),
+               Cl("last_event_is_the_clock", TRUE if cur["_last_event"] is None else event_time(L.cur, cur["_last_event"]) == lift_fl(cur["_now"]).v)]
+        if "_g_delivered" in old:
+            out.append(Cl("delivered_so_far", cur["_g_delivered"].v == old["_g_delivered"].v + i))
+        return out
+
+
+@register
+class LatentLoop(_DeliverLoop):
+    qual, field = "TradingEnv._process_latent_events", "_events_latent"
+
+
+@register
+class NonLatentLoop(_DeliverLoop):
+    qual, field = "TradingEnv._process_nonlatent_events", "_events_nonlatent"
+
+
+@register
+class TransmitterNext(Contract):
+    """ASSUMED summary of Transmitter._next (numpy indexing, itertools; exercised by the bounded shell of C04): either the stream is
+    exhausted (StopIteration) or the two batches of the next timestep are returned"""
+    relpath, qual = "tradingenv/transmitter.py", "Transmitter._next"
+    assumed = True
+    props = ("C04",)
+
+    def raises(self, c):
+        return {"StopIteration": {"when": c.I.bool("stream_exhausted")}}
+
+    def result(self, c):
+        return (mk_event_seq(c.I, "latent"), mk_event_seq(c.I, "nonlatent"))
 
 
 @register
@@ -443,6 +577,23 @@ class Step(Contract):
         return out
 
 
+ev_time = z3.Function("ev_time", Act, RealS)
+
+
+def event_time(heap, ev):
+    if isinstance(ev, ActV):
+        return ev_time(ev.t)
+    return lift_fl(heap[ev.oid]["time"]).v
+
+
+def same_event(a, b):
+    if isinstance(a, ActV) and isinstance(b, ActV):
+        return a.t == b.t
+    if isinstance(a, Obj) and isinstance(b, Obj):
+        return z3.BoolVal(a.oid == b.oid)
+    return z3.BoolVal(a is b)
+
+
 # ============================================================================= event dispatch (C04)
 from pyvc.contract import LoopBodyContract
 
@@ -538,17 +689,32 @@ class NotifyClock(Contract):
         env = I.new_rec("TradingEnv", _last_event=last, _now=I.tm("now0"), _observers=Opaque("observers"), broker=I.new_rec("Broker"))
         return {"self": env, "event": ev}
 
+    def requires(self, c):
+        h = c.I.snapshot()
+        f = h[c.self.oid]
+        le = f.get("_last_event")
+        now = f.get("_now")
+        out = []
+        if now is not None and le is not None:
+            # C04 (log monotone): nothing is notified with a stamp before the clock; the clock is the last event's stamp
+            out.append(Cl("not_before_the_clock", event_time(h, c.event) >= lift_fl(now).v))
+            out.append(Cl("clock_is_last_event_time", event_time(h, le) == lift_fl(now).v))
+        return out
+
     def modifies(self, c):
-        return [("field", c.self, "_now"), ("field", c.self, "_last_event"), ("global", "AbstractContract.now")]
+        return [("field", c.self, "_now"), ("field", c.self, "_last_event"), ("field", c.self, "_g_delivered"), ("global", "AbstractContract.now")]
 
     def havoc(self, c):
         I = c.I
-        I.fset(c.self, "_now", c.old[c.event.oid]["time"])
+        if "_g_delivered" in c.old[c.self.oid]:
+            I.fset(c.self, "_g_delivered", In(c.old[c.self.oid]["_g_delivered"].v + 1))
+        t = Tm(event_time(c.old, c.event))
+        I.fset(c.self, "_now", t)
         I.fset(c.self, "_last_event", c.event)
-        I.__dict__.setdefault("class_attrs", {})[("AbstractContract", "now")] = c.old[c.event.oid]["time"]
+        I.__dict__.setdefault("class_attrs", {})[("AbstractContract", "now")] = t
         I.trace.append(("global_write", "AbstractContract.now"))
         I.wrote(-1, "AbstractContract.now")
-        I.trace.append(("notify", getattr(c.event, "cls", "?")))
+        I.trace.append(("notify", getattr(c.event, "cls", "?"), c.event))
 
     def ensures(self, c):
         I = c.I
